@@ -4,4 +4,6 @@ package main
 // error sites, map ranges, lock facts).
 func genMore() {
 	genLockFacts()
+	genFilters()
+	genErrorSites()
 }
